@@ -1027,3 +1027,80 @@ func c03R21(p *core.Program, r *core.Report) {
 		r.Anchor(rule, "returns of (*Dumper).Name")
 	}
 }
+
+// c18R19: the origin the generated code names is the type name the declaration wrote: every value stored into the
+// Origin of a PartialStruct is the object the checker recorded for the identifier of the written type
+// (`ObjectOf(<ident>)`, narrowed by a type switch or assertion) - not something derived from it (the type an alias
+// denotes may be unexported or internal: `DeepCopyAs() *origin.settings` does not compile).
+func c18R19(p *core.Program, r *core.Report) {
+	const rule = "R19"
+	r.Floor(rule, 2)
+	n := 0
+	for _, f := range p.Funcs() {
+		if core.RelPkg(f.Pkg.PkgPath) != "devpkg/partialstruct" || f.Body == nil || f.Lit != nil {
+			continue
+		}
+		info := f.Info()
+		fromObjectOf := func(e ast.Expr) bool {
+			ta, ok := ast.Unparen(e).(*ast.TypeAssertExpr)
+			if ok {
+				e = ta.X
+			}
+			c, isCall := ast.Unparen(e).(*ast.CallExpr)
+			return isCall && strings.HasSuffix(core.CalleeName(info, c), ".ObjectOf")
+		}
+		judge := func(val ast.Expr, at token.Pos) {
+			n++
+			good := false
+			if id, isID := ast.Unparen(val).(*ast.Ident); isID {
+				obj := info.Uses[id]
+				// the symbolic variable of a type switch over ObjectOf(...)
+				ast.Inspect(f.Body, func(m ast.Node) bool {
+					ts, isTS := m.(*ast.TypeSwitchStmt)
+					if !isTS {
+						return true
+					}
+					as, isAs := ts.Assign.(*ast.AssignStmt)
+					if !isAs || len(as.Rhs) != 1 || !fromObjectOf(as.Rhs[0]) {
+						return true
+					}
+					for _, cl := range ts.Body.List {
+						if info.Implicits[cl] == obj && obj != nil {
+							good = true
+						}
+					}
+					return true
+				})
+				if v, isVar := obj.(*types.Var); isVar && !good {
+					if d, single := core.SingleDef(info, f.Body, v); single && d.Rhs != nil && fromObjectOf(d.Rhs) {
+						good = true
+					}
+				}
+			} else if fromObjectOf(val) {
+				good = true
+			}
+			r.Check(good, rule, f, "the origin is the type name the declaration wrote: "+core.ExprStr(val), at, "the checker's object for the written identifier",
+				"`"+core.ExprStr(val)+"` is stored as the origin, not the object of the identifier the declaration wrote: the generated DeepCopyAs names another type (the one an alias denotes, which may be unexported or in an internal package) and does not compile")
+		}
+		ast.Inspect(f.Body, func(m ast.Node) bool {
+			switch x := m.(type) {
+			case *ast.AssignStmt:
+				for i, l := range x.Lhs {
+					if fld := core.FieldOf(info, l); fld != nil && fld.Name() == "Origin" && i < len(x.Rhs) && len(x.Lhs) == len(x.Rhs) {
+						judge(x.Rhs[i], x.Pos())
+					}
+				}
+			case *ast.KeyValueExpr:
+				if id, ok := x.Key.(*ast.Ident); ok && id.Name == "Origin" {
+					if fld, isF := info.ObjectOf(id).(*types.Var); isF && fld.IsField() {
+						judge(x.Value, x.Pos())
+					}
+				}
+			}
+			return true
+		})
+	}
+	if n == 0 {
+		r.Anchor(rule, "stores into PartialStruct.Origin")
+	}
+}
